@@ -56,7 +56,7 @@ CHECKS = {
    "Theorems for ALL event lists (the junction comparator is quantified over): a BED12 record is valid iff the exon list is sorted, disjoint, well formed and inside the chromosome; the corrector's output is always such a list; strategy none is the identity; read ends change only in the terminal branches enabled by the strategy; every output splice site is the read's own, the best-matching annotated site within delta, or belongs to an intron of the assigned isoform; process_events terminates. Tied to the real ExonCorrector/BEDPrinter by correspondence and to pipeline BEDs for all strategies.",
    COMMON_NOTE + "IlluminaExonCorrector.correct_exons is modelled too (scoring rules regenerated): valid blocks, ends preserved, site provenance, identity without junctions, for all junction sets and enumeration orders. See docs/C14.md.", "§7 C14, docs/C14.md"),
  "C15": entry(
-   "Theorems for every value in the representable domain (exact encodable-iff characterisations): every primitive and object (events, matches, read assignments, compact records, gene header) round-trips through the byte format, the abridged reader consumes exactly the same bytes as the full reader and returns the projection, streams of gene-info and assignment records round-trip, terminators are unambiguous, penalties are idempotent. The reuse clause (--read_assignments) is a theorem over the modelled halves of process_sample (collect_reads incl. both memory modes, multimapper resolution, the _info file with the unaligned count; load_read_info / load_unaligned_reads, the full loader, verdicts, counters, merge, TPM): a restart recomputes exactly what the saving run computed from its files (restart_is_second_half, reuse_reproduces_outputs), also from save folders of the older _info format. Tied byte-for-byte to the real serialisers, both real loaders and the files the real collect_reads writes; printers and model construction of the restart are compared by in-process pipeline pairs (search).",
+   "Theorems for every value in the representable domain (exact encodable-iff characterisations): every primitive and object (events, matches, read assignments, compact records, gene header) round-trips through the byte format, the abridged reader consumes exactly the same bytes as the full reader and returns the projection, streams of gene-info and assignment records round-trip, terminators are unambiguous, penalties are idempotent. The reuse clause (--read_assignments) is a theorem over the modelled halves of process_sample (collect_reads incl. both memory modes, multimapper resolution, the _info file with the unaligned count; load_read_info / load_unaligned_reads, the full loader, verdicts, counters, merge, TPM): a restart recomputes exactly what the saving run computed from its files (restart_is_second_half, reuse_reproduces_outputs), also from save folders of the older _info format. The read-level printers (read_assignments.tsv, corrected_reads.bed lines and their merge) are modelled too, so the restart reproduces the printed files (reuse_reproduces_printed). Tied byte-for-byte to the real serialisers, both real loaders, the real printers and the files the real collect_reads writes; transcript model construction of the restart is compared by in-process pipeline pairs (search).",
    COMMON_NOTE + "See docs/C15.md.", "§7 C15, docs/C15.md"),
  "C16": entry(
    "Theorems for every CIGAR over all nine operation kinds (unbounded): the exon blocks equal a loop-free SAM specification (maximal runs between N/S containing an aligned base), are sorted and well formed, read-coordinate blocks are consistent with the query; polyA/polyT exon trimming never empties or disorders the exon list and moves the tail position onto the retained exon, for every exon list and position quadruple. Tied to get_read_blocks, AlignmentInfo and pysam by exhaustive short and random long CIGARs.",
@@ -80,10 +80,16 @@ NOT_APPLICABLE = {}
 def main():
     props = [json.loads(l)["id"] for l in open(os.path.join(VERIF, "properties.jsonl"))]
     checks = []
+    kf = json.load(open(os.path.join(VERIF, "known_findings.json")))
     for pid in props:
         if pid not in CHECKS:
             continue
-        c = CHECKS[pid]
+        c = dict(CHECKS[pid])
+        ids = [e["id"] for e in kf.get("findings", []) if e.get("property") == pid]
+        nfix = sum(1 for l in kf.get("fixed", []) if ("property=%s " % pid) in l)
+        c["note"] = c["note"] + (" Known findings listed in known_findings.json: %s." % ", ".join(ids) if ids else " No known finding listed.") + \
+            (" %d defect(s) of the pinned tree repaired by fix: commits (DESIGN §14)." % nfix if nfix else "") + \
+            " Theorem list with meanings, partial / witness theorems and the hypotheses that are run-time monitored: docs/%s.md; reading rules: DESIGN §6." % pid
         checks.append({
             "property_id": pid,
             "quick_cmd": "/venv/bin/python harness/vcheck.py --property %s --tier quick" % pid,
